@@ -387,4 +387,32 @@ def prove_equal_modulo_uf(assertions, a, b, decls=(LOG, EXP, SQRT), timeout_ms=1
     b2 = z3.substitute(b, *subs_b) if subs_b else b
     r, m, dt = check_valid(assertions, a2 == b2, timeout_ms=timeout_ms)
     queries += 1
+    if r == "sat":
+        # the functions are uninterpreted, so a model may sit where the REAL function happens to coincide (e.g. LOG(1) = 0 kills a
+        # wrong coefficient). Prefer a generic witness: every abstracted argument strictly inside (0, 1), so it replays on floats.
+        generic = []
+        for fa, v in subs_a:
+            arg = fa.arg(0)
+            generic += [arg > 0, arg < 1, v != 0]
+        r2, m2, dt2 = check_valid(list(assertions) + generic, a2 == b2, timeout_ms=timeout_ms)
+        queries += 1
+        if r2 == "sat":
+            m = m2
     return r, {"model": m, "queries": queries, "matched": len(used), "apps": (len(apps_a), len(apps_b))}
+
+
+def common_denominator_form(terms):
+    """If every term is syntactically `num_i / den` with ONE shared denominator, return ([num_i], den); else None.
+    Lets a harness turn `sum_i num_i/den == 1` into the polynomial identity `sum_i num_i == den` plus `den != 0`
+    (sound: it is an equivalent statement of the same claim, only easier for nlsat)."""
+    nums, den = [], None
+    for t in terms:
+        if not (z3.is_app(t) and t.decl().kind() == z3.Z3_OP_DIV and t.num_args() == 2):
+            return None
+        n, d = t.arg(0), t.arg(1)
+        if den is None:
+            den = d
+        elif not den.eq(d):
+            return None
+        nums.append(n)
+    return nums, den
